@@ -243,10 +243,36 @@ func runC03(r *run) {
 		}
 		errClass := map[int]bool{0: true, 1: true, 2: true, 3: true, 11: true, 41: true, 42: true, 44: true}
 		isSettable := map[int]bool{3: true, 4: true, 6: true}
+		// besides one record per severity class: blank Println() calls (severity Always, delivered as a single line
+		// feed) on a logger whose own threshold is an error-class level or a level with leveled writers — the routing
+		// is by the record's severity, never by the logger's threshold
+		type c03probe struct{ sev, blankAt int }
+		var plist []c03probe
 		for _, sev := range probes {
+			plist = append(plist, c03probe{sev, -1})
+		}
+		plist = append(plist, c03probe{8, 3}, c03probe{8, 2}, c03probe{8, 5})
+		for lv := range leveled {
+			if lv >= 0 && lv <= 9 && lv != 7 {
+				plist = append(plist, c03probe{8, lv})
+				break
+			}
+		}
+		for _, pv := range plist {
+			sev := pv.sev
 			log.take()
 			o0, e0, f0 := size(outF), size(errF), size(fileW)
-			l.Logit(ctx, slog.Level(sev), "probe")
+			if pv.blankAt >= 0 {
+				l.SetLevel(slog.Level(pv.blankAt))
+				if h%2 == 0 {
+					l.Println()
+				} else {
+					l.Print(" \t\n")
+				}
+				l.SetLevel(slog.AlwaysLevel)
+			} else {
+				l.Logit(ctx, slog.Level(sev), "probe")
+			}
 			evs := log.take()
 			var tells []string
 			var writes []int
@@ -309,7 +335,7 @@ func runC03(r *run) {
 			r.count(fmt.Sprintf("route=%s", map[bool]string{true: "leveled", false: map[bool]string{true: "error", false: "normal"}[errClass[sev]]}[len(leveled[sev]) > 0]))
 			if obs != wantObs {
 				r.violate(violation{What: "destinations of a record differ from the documented routing / configuration",
-					Input: map[string]any{"history": hist, "first_k_as_New_options": k, "probe_severity": sev}, Expected: wantObs, Actual: obs})
+					Input: map[string]any{"history": hist, "first_k_as_New_options": k, "probe_severity": sev, "blank_Println_on_a_logger_with_threshold": pv.blankAt}, Expected: wantObs, Actual: obs})
 			}
 		}
 		key := ""
